@@ -61,6 +61,10 @@ LogsumHmmLikelihood::LogsumHmmLikelihood(
 
 void LogsumHmmLikelihood::setNamespace(const std::string& nameSpace)
 {
+  // The derivatives are cached under the name of their variable, which changes with the namespace
+  dVariable_ = "";
+  d2Variable_ = "";
+
   AbstractParametrizable::setNamespace(nameSpace);
 
   hiddenAlphabet_->setNamespace(nameSpace);
